@@ -27,7 +27,7 @@ def _calls(fn, nested=True):
 @rule(
     "C17.unknown",
     props=("C17",),
-    floor=4,
+    floor=2,
     family="GRD",
     desc="in z3_solver_sat every path on which the native result is `unknown` ends in a raise, and the value "
     "returned is `result == sat`",
@@ -35,7 +35,7 @@ def _calls(fn, nested=True):
 def c17_unknown(R):
     tree = R.tree
     m = tree.mod(Z3)
-    fn = tree.func(Z3, "z3_solver_sat")
+    fn = tree.func_inlined(Z3, "z3_solver_sat")
     g = CFG(fn)
     tests = g.find(lambda n: n.kind == "test" and "unknown" in ast.unparse(n.ast))
     R.need(len(tests) >= 1, "no test of the result against z3.unknown in z3_solver_sat")
